@@ -25,7 +25,6 @@ PURE = {
     'core::iter::traits::iterator::Iterator::copied', 'core::iter::traits::iterator::Iterator::map',
     'core::iter::traits::iterator::Iterator::rev',
     'core::option::Option::map', 'core::option::Option::and_then', 'core::option::Option::unwrap_unchecked',
-    'core::mem::maybe_uninit::MaybeUninit::uninit', 'core::mem::maybe_uninit::MaybeUninit::assume_init',
     'core::ops::index::Index::index', 'core::convert::From::from', 'core::convert::Into::into',
     'core::clone::Clone::clone',
 }
